@@ -204,6 +204,25 @@ func classifyLoop(c *Ctx, l loopInfo) (kind string, regular bool, detail string)
 					return "queue-drain", false, fmt.Sprintf("queue loop: pop-every-iteration=%v pushes=%v", pop, push)
 				}
 				if n == "builtin.len" {
+					// a priority-queue drain written with len(queue): pops one item per iteration, never pushes
+					pop, push := false, false
+					for b := range l.body {
+						for _, in := range b.Instrs {
+							if ci, ok := in.(ssa.CallInstruction); ok {
+								switch core.CalleeName(ci.Common()) {
+								case heapPop:
+									if b == h.Succs[0] || b.Dominates(lastBackEdgeSource(l)) {
+										pop = true
+									}
+								case heapPush:
+									push = true
+								}
+							}
+						}
+					}
+					if pop && !push {
+						return "queue-drain", true, "mechanical: pops one item per iteration and never pushes"
+					}
 					return "worklist", false, "work-list loop (len(S) > 0)"
 				}
 			}
@@ -439,7 +458,7 @@ func (c *Ctx) termSCCWith(scc []*ssa.Function, f *ssa.Function, quiet bool) bool
 		var out []setOp
 		core.Instrs(f, func(in ssa.Instruction) {
 			if !del {
-				if mu, ok := in.(*ssa.MapUpdate); ok && isM(mu.Map) {
+				if mu, ok := in.(*ssa.MapUpdate); ok && isM(mu.Map) && core.SetInsert(mu) {
 					out = append(out, setOp{in, core.Path(mu.Key), false})
 					return
 				}
@@ -454,7 +473,13 @@ func (c *Ctx) termSCCWith(scc []*ssa.Function, f *ssa.Function, quiet bool) bool
 				return
 			}
 			cal := ci.Common().StaticCallee()
-			if cal == nil || !p.InTarget(cal) || inSCC[cal] || len(cal.Blocks) == 0 {
+			var closure *ssa.MakeClosure
+			if mc, isMC := ci.Common().Value.(*ssa.MakeClosure); isMC {
+				// `defer func() { delete(M, k) }()`: the literal runs when f returns
+				closure = mc
+				cal, _ = mc.Fn.(*ssa.Function)
+			}
+			if cal == nil || !p.InTarget(cal) || inSCC[cal] && closure == nil || len(cal.Blocks) == 0 {
 				return
 			}
 			key, found := "", false
@@ -466,11 +491,16 @@ func (c *Ctx) termSCCWith(scc []*ssa.Function, f *ssa.Function, quiet bool) bool
 						}
 					}
 				}
+				if closure != nil {
+					if d := p.DerefFree(v); d != nil {
+						return core.Path(d)
+					}
+				}
 				return "callee:" + core.Path(v)
 			}
 			core.Instrs(cal, func(in2 ssa.Instruction) {
 				if !del {
-					if mu, ok := in2.(*ssa.MapUpdate); ok && isM(mu.Map) {
+					if mu, ok := in2.(*ssa.MapUpdate); ok && isM(mu.Map) && core.SetInsert(mu) {
 						key, found = bind(mu.Key), true
 					}
 					return
@@ -577,10 +607,8 @@ func resolvesToParam(p *core.Prog, v ssa.Value, prm *ssa.Parameter) bool {
 func (c *Ctx) guardedByLookup(f *ssa.Function, b *ssa.BasicBlock, isM func(ssa.Value) bool) (bool, string) {
 	lits := c.P.ExpandLits(c.P.ILits(b))
 	for _, l := range lits {
-		if l.Kind == "ok" && !l.Pol {
-			if lk, ok := l.Of.(*ssa.Lookup); ok && isM(lk.X) {
-				return true, "guarded by `not in set`"
-			}
+		if lk, in, ok := core.MemberLit(l); ok && !in && isM(lk.X) {
+			return true, "guarded by `not in set`"
 		}
 		if l.Kind == "cmp" && l.Op == token.EQL && l.Pol {
 			for _, pair := range [][2]ssa.Value{{l.X, l.Y}, {l.Y, l.X}} {
@@ -608,10 +636,8 @@ func (c *Ctx) guardedByLookup(f *ssa.Function, b *ssa.BasicBlock, isM func(ssa.V
 		list := cl.Common().Args[0]
 		for _, ap := range appendSites(f, list) {
 			for _, l2 := range c.P.ExpandLits(c.P.ILits(ap.Block())) {
-				if l2.Kind == "ok" && l2.Pol {
-					if lk, ok := l2.Of.(*ssa.Lookup); ok && isM(lk.X) {
-						return true, "guarded by emptiness of a list that receives an entry whenever a vertex on a chosen path is in the set"
-					}
+				if lk, in, ok := core.MemberLit(l2); ok && in && isM(lk.X) {
+					return true, "guarded by emptiness of a list that receives an entry whenever a vertex on a chosen path is in the set"
 				}
 			}
 		}
